@@ -1301,8 +1301,9 @@ fn try_unwrap_lit_prop_name(prop_name: &PropName) -> Option<Cow<PropName>> {
         PropName::Ident(..) | PropName::Str(..) | PropName::Num(..) | PropName::BigInt(..) => {
             Some(Cow::Borrowed(prop_name))
         }
+        // a computed key is only statically known if it is a literal
+        // (`[name]` is the value of a variable, not the key `name`)
         PropName::Computed(ComputedPropName { expr, .. }) => match &**expr {
-            Expr::Ident(ident) => Some(Cow::Owned(PropName::Ident(ident.clone().into()))),
             Expr::Lit(Lit::Str(str)) => Some(Cow::Owned(PropName::Str(str.clone()))),
             Expr::Lit(Lit::Num(num)) => Some(Cow::Owned(PropName::Num(num.clone()))),
             Expr::Lit(Lit::BigInt(bigint)) => Some(Cow::Owned(PropName::BigInt(bigint.clone()))),
